@@ -49,7 +49,10 @@ ASSUMPTIONS = ['lazy depth 1 is claimed; depths 2 and 3 are explored and reporte
                'compared); xmlns pseudo-attributes at the root of a separately decoded chunk are not compared; prefixes of '
                'decoded names are compared (a difference is finding C06-F10)',
                'for documents with a chunk that is not governed by its static declaration (finding C06-F2) errors that depend '
-               'on document-wide tables (ID/IDREF, identity constraints) are left out of the exact prediction',
+               'on document-wide tables (ID/IDREF, identity constraints) are left out of the exact prediction; the errors of '
+               'such a chunk are measured with the lazy driver\'s own call (context at level 1 on the document, own xmlns '
+               'declarations pushed, raw_decode against the static declaration); paths are then compared as a multiset '
+               'outside these chunks (buffered source)',
                'text of elements above the lazy depth is not compared at their start event (documented as incomplete)',
                'with a byte-wise streaming source, positional predicates of error paths are compared up to the siblings '
                'already parsed (a[1] may be spelled a when no later sibling exists yet)']
@@ -636,10 +639,14 @@ def check_validation(ctx: Ctx, spec, schema, xml: bytes, defects: list, reqs: li
                     continue
                 if root_id_dup and 'duplicated xs:ID' in eg.canon[idx][1]:
                     # the root (processed last when lazy) and a descendant carry the same xs:ID value
-                    fid = known_match(case, {'kind': 'root-id', 'root_id_repeated': True, 'same_multiset': True,
-                                             'nonlocal': []})
-                    ctx.known_hit(fid) if fid else None
-                    continue
+                    detail = {'kind': 'root-id', 'root_id_repeated': True, 'same_multiset': same_seq, 'nonlocal': [],
+                              'lazy_path': lp, 'eager_path': ep, 'error': eg.canon[idx]}
+                    fid = known_match(case, detail)
+                    if fid:
+                        ctx.known_hit(fid)
+                        continue
+                    ctx.failure('lazy validation reports an error at another path than full loading', case, detail)
+                    break
                 owner = eg.owner[idx]
                 desc_paths = set()
                 for nid, _ in eg.visits:
